@@ -861,7 +861,7 @@ func (p *BinaryProtocol) encodeText(desc *TypeDescriptor, buf *[]byte, byteAsUin
 			*buf = strconv.AppendInt(*buf, int64(uint8(b)), 10)
 			return nil
 		} else {
-			*buf = strconv.AppendInt(*buf, int64(b), 10)
+			*buf = strconv.AppendInt(*buf, int64(int8(b)), 10)
 			return nil
 		}
 	case I16:
